@@ -478,12 +478,23 @@ def run(ctx):
     warnings.simplefilter('ignore')          # tsc_parallel recommends float32; float64 keeps the comparison exact
     from abacusnbody.analysis import tsc
     ctx.count('corpus', len(corpus_cases()))
+    import time
+    from vcommon import log
+    t0 = time.time()
+    stages = {}
     accepted = decisions(ctx, tsc)
     ctx.exhaustive = True
+    stages['decisions'] = round(time.time() - t0, 1)
     phases_corr(ctx, tsc)
+    stages['phases'] = round(time.time() - t0, 1)
     rows_corr(ctx, tsc)
+    stages['rows'] = round(time.time() - t0, 1)
     oracle_all(ctx, tsc, accepted)
+    stages['oracle'] = round(time.time() - t0, 1)
     whole(ctx, tsc)
+    stages['whole'] = round(time.time() - t0, 1)
+    ctx.extra['stage_seconds_cumulative'] = stages
+    log('[c07] cumulative stage seconds', stages)
 
 
 def intensify(ctx):
@@ -497,9 +508,9 @@ def intensify(ctx):
     w = np.empty(0, dtype=np.float64)
     accepted = {}
     try:
-        for n1d in range(2, 200):
+        for n1d in range(2, 100):
             dens = np.zeros((n1d, 1, 1))
-            for nthread in (2, 3, 4, 8, 16, 32):
+            for nthread in (2, 4, 16):
                 for npart in [None] + list(range(2, n1d // 2 + 2)):
                     r = real_decision(tsc, rec, dens, pos, w, n1d, nthread, npart)
                     if isinstance(r, int) and r >= 3:
